@@ -58,6 +58,10 @@ func (d *HTTPDeliverer) Deliver(ctx context.Context, delivery Delivery) Result {
 		return Result{Err: err}
 	}
 
+	if delivery.Sign != nil {
+		// checkRedirect signs every redirect hop anew.
+		ctx = context.WithValue(ctx, signedDeliveryKey{}, delivery)
+	}
 	req, err := http.NewRequestWithContext(ctx, method, delivery.URL, bytes.NewReader(delivery.Body))
 	if err != nil {
 		return Result{Err: err}
@@ -87,8 +91,21 @@ func (d *HTTPDeliverer) checkRedirect(req *http.Request, via []*http.Request) er
 	if err := checkEgressPolicyURL(req.Context(), req.URL, d.Policy, d.Resolver); err != nil {
 		return err
 	}
+	// net/http copies the headers of the previous hop, including its
+	// signature. The redirected request has another path and possibly another
+	// method and no body, so sign what is actually sent.
+	if delivery, ok := req.Context().Value(signedDeliveryKey{}).(Delivery); ok {
+		if req.Body == nil || req.Body == http.NoBody {
+			delivery.Body = nil
+		}
+		if err := d.applyDeliverySigning(req, delivery); err != nil {
+			return err
+		}
+	}
 	return nil
 }
+
+type signedDeliveryKey struct{}
 
 func (d *HTTPDeliverer) applyDeliverySigning(req *http.Request, delivery Delivery) error {
 	if delivery.Sign == nil {
